@@ -34,6 +34,61 @@ theorem SItemsOK.sub {t : Tables} {L L' : List (Handle × SItem)} (h : SItemsOK 
   ⟨(hs.map _).nodup h.keys, fun p hp => h.dh p (hs.subset hp), fun p hp => h.old p (hs.subset hp),
    fun p hp => h.ref p (hs.subset hp), fun p hp => h.bump p (hs.subset hp)⟩
 
+/-- a stage of the commit that writes only single states (items from `L`) -/
+structure SRelS (L : List (Handle × SItem)) (T T' : Tables) : Prop where
+  fr : FrS T' T
+  seen : ∀ h, seenS T h ≤ seenS T' h
+  chg : ∀ h a, findS T h = some a → ∃ b, findS T' h = some b ∧ (a = b ∨ a.sv < b.sv)
+  src : ∀ h b, findS T' h = some b → findS T h = some b ∨ h ∈ L.map (·.1)
+
+theorem SRelS.refl (L : List (Handle × SItem)) (T : Tables) : SRelS L T T :=
+  ⟨⟨rfl, rfl, rfl, rfl⟩, fun _ => optLe_refl _, fun _ a h => ⟨a, h, .inl rfl⟩, fun _ _ h => .inl h⟩
+
+theorem SRelS.trans {L : List (Handle × SItem)} {A B C : Tables} (h1 : SRelS L A B) (h2 : SRelS L B C) : SRelS L A C := by
+  refine ⟨h2.fr.trans h1.fr, fun h => optLe_trans (h1.seen h) (h2.seen h), ?_, ?_⟩
+  · intro h a ha
+    obtain ⟨b, hb, r1⟩ := h1.chg h a ha
+    obtain ⟨c, hc, r2⟩ := h2.chg h b hb
+    refine ⟨c, hc, ?_⟩
+    rcases r1 with rfl | r1
+    · exact r2
+    · rcases r2 with rfl | r2
+      · exact .inr r1
+      · exact .inr (Nat.lt_trans r1 r2)
+  · intro h c hc
+    rcases h2.src h c hc with hb | hk
+    · exact h1.src h c hb
+    · exact .inr hk
+
+theorem SRelS.of_apply {L M : List (Handle × SItem)} {T : Tables} (hi : SItemsOK T M) (hsub : ∀ p ∈ M, p ∈ L) :
+    SRelS L T (applySItems T M).1 := by
+  refine ⟨applySItems_frame T M, applySItems_seenS hi, ?_, ?_⟩
+  · intro h a ha
+    rw [applySItems_findS hi]
+    cases hg : dictGet M h with
+    | none => exact ⟨a, ha, .inl rfl⟩
+    | some it => exact ⟨it.new, rfl, .inr ((hi.bump (h, it) (dictGet_some_mem hg)).1 a ha)⟩
+  · intro h b hb
+    rw [applySItems_findS hi] at hb
+    cases hg : dictGet M h with
+    | none => rw [hg] at hb; exact .inl hb
+    | some it => exact .inr (List.mem_map.2 ⟨(h, it), hsub _ (dictGet_some_mem hg), rfl⟩)
+
+/-- the stage that writes the context states -/
+structure SRelC (M : List (Handle × CItem)) (T T' : Tables) : Prop where
+  fr : FrC T' T
+  seen : ∀ h, seenC T h ≤ seenC T' h
+  chg : ∀ h a b, findC T h = some a → findC T' h = some b → a = b ∨ a.sv < b.sv
+  src : ∀ h b, findC T' h = some b → findC T h = some b ∨ h ∈ M.map (·.1)
+
+theorem SRelC.of_apply {M : List (Handle × CItem)} {T : Tables} (hi : CItemsOK true T M) : SRelC M T (applyCItems T M).1 := by
+  refine ⟨applyCItems_frame T M, applyCItems_seenC hi, fun h a b ha hb => applyCItems_change hi ha hb, ?_⟩
+  intro h b hb
+  rw [applyCItems_findC hi] at hb
+  cases hg : dictGet M h with
+  | none => rw [hg] at hb; exact .inl hb
+  | some it => exact .inr (List.mem_map.2 ⟨(h, it), dictGet_some_mem hg, rfl⟩)
+
 /-- what is known between two of the five single-state dicts: the items `L` whose kind is in `done` have been written -/
 structure SB (L : List (Handle × SItem)) (done : List Kind) (C : Handle → Prop) (T : Tables) : Prop where
   wfm : WFm (fun x => ∃ p ∈ L, p.1 = x ∧ p.2.new.kind ∉ done) C T
@@ -43,7 +98,7 @@ structure SB (L : List (Handle × SItem)) (done : List Kind) (C : Handle → Pro
 theorem SB.kind {L : List (Handle × SItem)} {done : List Kind} {C : Handle → Prop} {c : DCommit} (hb : SB L done C c.t)
     (hL : c.tx.sItems = L) {k : Kind} (hk : k ∉ done) :
     (applyKind c k).2 = none ∧ SB L (k :: done) C (applyKind c k).1.t ∧ (applyKind c k).1.tx = c.tx ∧
-      FrS (applyKind c k).1.t c.t := by
+      SRelS L c.t (applyKind c k).1.t := by
   have hfil : L.filter (fun p => p.2.new.kind == k) =
       (L.filter (fun p => !done.contains p.2.new.kind)).filter (fun p => p.2.new.kind == k) := by
     rw [List.filter_filter]
@@ -64,7 +119,8 @@ theorem SB.kind {L : List (Handle × SItem)} {done : List Kind} {C : Handle → 
     fun p hp => hb.kinds p (List.mem_filter.1 hp).1
   have hfr := applySItems_frame c.t (L.filter (fun p => p.2.new.kind == k))
   simp only [applyKind, hL]
-  refine ⟨applySItems_noerr hik, ⟨?_, ?_, ?_⟩, (by first | rfl | trivial), hfr⟩
+  refine ⟨applySItems_noerr hik, ⟨?_, ?_, ?_⟩, (by first | rfl | trivial),
+    SRelS.of_apply hik (fun p hp => (List.mem_filter.1 hp).1)⟩
   · refine (applySItems_wfm hb.wfm hik hkk).mono ?_ (fun _ h => h)
     rintro x ⟨⟨p, hp, e, hnd⟩, hx⟩
     refine ⟨p, hp, e, ?_⟩
@@ -93,10 +149,10 @@ theorem SB.kind {L : List (Handle × SItem)} {done : List Kind} {C : Handle → 
 theorem SB.kindsAll {L : List (Handle × SItem)} {C : Handle → Prop} :
     ∀ (ks : List Kind) (done : List Kind) (c : DCommit), SB L done C c.t → c.tx.sItems = L → ks.Nodup → (∀ k ∈ ks, k ∉ done) →
       (applyKinds c ks).2 = none ∧ SB L (ks.reverse ++ done) C (applyKinds c ks).1.t ∧ (applyKinds c ks).1.tx = c.tx ∧
-        FrS (applyKinds c ks).1.t c.t := by
+        SRelS L c.t (applyKinds c ks).1.t := by
   intro ks
   induction ks with
-  | nil => intro done c hb _ _ _; exact ⟨rfl, by simpa [applyKinds] using hb, rfl, ⟨rfl, rfl, rfl, rfl⟩⟩
+  | nil => intro done c hb _ _ _; exact ⟨rfl, by simpa [applyKinds] using hb, rfl, SRelS.refl _ _⟩
   | cons k ks ih =>
     intro done c hb hL hn hd
     simp only [List.nodup_cons] at hn
@@ -111,26 +167,75 @@ theorem SB.kindsAll {L : List (Handle × SItem)} {C : Handle → Prop} :
       rcases List.mem_cons.1 hx with rfl | hx
       · exact hn.1 hk'
       · exact hd k' (by simp [hk']) hx)
-    refine ⟨e2, ?_, t2.trans t1, f2.trans f1⟩
+    refine ⟨e2, ?_, t2.trans t1, f1.trans f2⟩
     simpa [List.reverse_cons, List.append_assoc] using b2
 
 theorem SB.ctx {L : List (Handle × SItem)} {done : List Kind} {C : Handle → Prop} {c : DCommit} (hb : SB L done C c.t)
     (hc : CItemsOK true c.t c.tx.cItems)
     (hck : ∀ p ∈ c.tx.cItems, ∀ n ∈ p.2.new, ∀ d ∈ c.t.descrs, d.handle = n.dh → d.kind = .context) :
-    (applyCtx c).2 = none ∧ SB L done (fun x => C x ∧ x ∉ c.tx.cItems.map (·.1)) (applyCtx c).1.t ∧ (applyCtx c).1.tx = c.tx := by
+    (applyCtx c).2 = none ∧ SB L done (fun x => C x ∧ x ∉ c.tx.cItems.map (·.1)) (applyCtx c).1.t ∧ (applyCtx c).1.tx = c.tx ∧
+      SRelC c.tx.cItems c.t (applyCtx c).1.t := by
   have hfr := applyCItems_frame c.t c.tx.cItems
   simp only [applyCtx]
-  refine ⟨applyCItems_noerr hc, ⟨applyCItems_wfm hb.wfm hc hck, hb.ok.congr hfr.2.1 hfr.2.2.2 hfr.1, ?_⟩, (by first | rfl | trivial)⟩
+  refine ⟨applyCItems_noerr hc, ⟨applyCItems_wfm hb.wfm hc hck, hb.ok.congr hfr.2.1 hfr.2.2.2 hfr.1, ?_⟩, (by first | rfl | trivial),
+    SRelC.of_apply hc⟩
   intro p hp
   obtain ⟨a, b⟩ := hb.kinds p hp
   exact ⟨a, by rw [hfr.1]; exact b⟩
 
 
+/-- what the state part of the commit does to the tables: descriptors untouched, counters of the states only grow, a
+    changed state has a larger version, a new state comes from an item of the transaction -/
+structure CommitRel (X : DTx) (T T' : Tables) : Prop where
+  descrs : T'.descrs = T.descrs
+  dSaved : T'.dSaved = T.dSaved
+  seenS : ∀ h, seenS T h ≤ seenS T' h
+  seenC : ∀ h, seenC T h ≤ seenC T' h
+  chgS : ∀ h a, findS T h = some a → ∃ b, findS T' h = some b ∧ (a = b ∨ a.sv < b.sv)
+  srcS : ∀ h b, findS T' h = some b → findS T h = some b ∨ h ∈ X.sItems.map (·.1)
+  chgC : ∀ h a b, findC T h = some a → findC T' h = some b → a = b ∨ a.sv < b.sv
+  srcC : ∀ h b, findC T' h = some b → findC T h = some b ∨ h ∈ X.cItems.map (·.1)
+
+theorem CommitRel.mk3 {X : DTx} {A B C D : Tables} (r1 : SRelS X.sItems A B) (r2 : SRelC X.cItems B C) (r3 : SRelS X.sItems C D) :
+    CommitRel X A D := by
+  have fSB : ∀ h, findS C h = findS B h := fun h => by simp [findS, r2.fr.2.1]
+  have fCA : ∀ h, findC B h = findC A h := fun h => by simp [findC, r1.fr.2.1]
+  have fCD : ∀ h, findC D h = findC C h := fun h => by simp [findC, r3.fr.2.1]
+  refine ⟨r3.fr.1.trans (r2.fr.1.trans r1.fr.1), r3.fr.2.2.1.trans (r2.fr.2.2.1.trans r1.fr.2.2.1), ?_, ?_, ?_, ?_, ?_, ?_⟩
+  · intro h
+    refine optLe_trans (r1.seen h) (optLe_trans ?_ (r3.seen h))
+    rw [seenS_congr r2.fr.2.1 r2.fr.2.2.2]; exact optLe_refl _
+  · intro h
+    rw [seenC_congr r3.fr.2.1 r3.fr.2.2.2, ← seenC_congr r1.fr.2.1 r1.fr.2.2.2 h]
+    exact r2.seen h
+  · intro h a ha
+    obtain ⟨b, hb, q1⟩ := r1.chg h a ha
+    obtain ⟨c, hc, q2⟩ := r3.chg h b (by rw [fSB]; exact hb)
+    refine ⟨c, hc, ?_⟩
+    rcases q1 with rfl | q1
+    · exact q2
+    · rcases q2 with rfl | q2
+      · exact .inr q1
+      · exact .inr (Nat.lt_trans q1 q2)
+  · intro h b hb
+    rcases r3.src h b hb with hc | hk
+    · rw [fSB] at hc; exact r1.src h b hc
+    · exact .inr hk
+  · intro h a b ha hb
+    rw [fCD] at hb; rw [← fCA] at ha
+    exact r2.chg h a b ha hb
+  · intro h b hb
+    rw [fCD] at hb
+    rcases r2.src h b hb with hc | hk
+    · rw [fCA] at hc; exact .inl hc
+    · exact .inr hk
+
 theorem pendUpd_nil (x : Handle) : ¬ pendUpd [] x := by rintro ⟨o, n, h⟩; cases h
 
 /-- after the descriptor items: the six state dicts go through without error and the tables are well-formed again -/
 theorem commitStates_ok {c : DCommit} (h : CInv t₀ tx₀ del [] (pendUpd []) c.t c.tx) :
-    (commitStates c).2 = none ∧ WF (commitStates c).1.t ∧ KOK (commitStates c).1.t := by
+    (commitStates c).2 = none ∧ WF (commitStates c).1.t ∧ KOK (commitStates c).1.t ∧
+      CommitRel c.tx c.t (commitStates c).1.t := by
   have hnp : ∀ x, ¬ pendUpd [] x := pendUpd_nil
   have huniq : ∀ d ∈ c.t.descrs, ∀ d' ∈ c.t.descrs, d.handle = d'.handle → d = d' := fun d hd d' hd' e => mem_unique h.dKeys hd hd' e
   -- the bundle before the first dict
@@ -185,24 +290,27 @@ theorem commitStates_ok {c : DCommit} (h : CInv t₀ tx₀ del [] (pendUpd []) c
   simp only at e1 b1 t1 f1; subst e1
   simp only
   -- context
-  have hci1 : CItemsOK true c1.t c1.tx.cItems := by rw [t1]; exact hci.congr f1.2.1 f1.2.2.2 f1.1
+  have hci1 : CItemsOK true c1.t c1.tx.cItems := by rw [t1]; exact hci.congr f1.fr.2.1 f1.fr.2.2.2 f1.fr.1
   have hck1 : ∀ p ∈ c1.tx.cItems, ∀ n ∈ p.2.new, ∀ d ∈ c1.t.descrs, d.handle = n.dh → d.kind = .context := by
-    rw [t1, f1.1]; exact hck
-  obtain ⟨e2, b2, t2⟩ := b1.ctx hci1 hck1
-  generalize applyCtx c1 = r2 at e2 b2 t2
+    rw [t1, f1.fr.1]; exact hck
+  obtain ⟨e2, b2, t2, f2⟩ := b1.ctx hci1 hck1
+  generalize applyCtx c1 = r2 at e2 b2 t2 f2
   obtain ⟨c2, x2⟩ := r2
-  simp only at e2 b2 t2; subst e2
+  simp only at e2 b2 t2 f2; subst e2
   simp only
   -- component, operational, rt
-  obtain ⟨e3, b3, _, _⟩ := SB.kindsAll [.component, .operational, .rt] _ c2 b2 (by rw [t2, t1]) (by decide) (by decide)
+  obtain ⟨e3, b3, _, f3⟩ := SB.kindsAll [.component, .operational, .rt] _ c2 b2 (by rw [t2, t1]) (by decide) (by decide)
   refine ⟨e3, ?_⟩
-  refine b3.wfm.wf ?_ ?_
-  · rintro x ⟨p, hp, _, hk⟩
+  have hwk := b3.wfm.wf (S := _) (C := _) (by
+    rintro x ⟨p, hp, _, hk⟩
     have := (hkinds p hp).1
     revert hk this
-    cases p.2.new.kind <;> simp
-  · rintro x ⟨hx, hnx⟩
-    exact hnx (by rw [t1]; exact hx)
+    cases p.2.new.kind <;> simp) (by
+    rintro x ⟨hx, hnx⟩
+    exact hnx (by rw [t1]; exact hx))
+  refine ⟨hwk.1, hwk.2, ?_⟩
+  rw [t1] at f2
+  exact CommitRel.mk3 f1 f2 f3
 
 /-- the whole descriptor commit: refused by the consistency check (tables untouched) or complete -/
 theorem commitD_ok {t : Tables} (hw : WF t) (hk : KOK t) {tx : DTx} (hi : DTxOK t tx) :
@@ -225,7 +333,7 @@ theorem commitD_ok {t : Tables} (hw : WF t) (hk : KOK t) {tx : DTx} (hi : DTxOK 
         rw [heq] at e1; cases e1
       · rename_i c heq
         rw [heq] at h1
-        obtain ⟨e2, w, k⟩ := commitStates_ok h1
+        obtain ⟨e2, w, k, _⟩ := commitStates_ok h1
         exact ⟨fun h => absurd e2 h, w, k⟩
 
 theorem runD_ok {t : Tables} (hw : WF t) (hk : KOK t) (s : DScript) (hs : DScriptOK t s) :
@@ -242,5 +350,93 @@ theorem runD_ok {t : Tables} (hw : WF t) (hk : KOK t) (s : DScript) (hs : DScrip
       cases e with
       | none => exact ⟨by simp; split <;> simp, b, c⟩
       | some e => exact ⟨fun _ => (a (by simp)).2, b, c⟩
+
+
+/-! ## version counters over a descriptor transaction -/
+
+/-- counters never go down, and whatever differs afterwards has a larger version -/
+structure DMono (t T' : Tables) : Prop where
+  seenD : ∀ h, seenD t h ≤ seenD T' h
+  seenS : ∀ h, seenS t h ≤ seenS T' h
+  seenC : ∀ h, seenC t h ≤ seenC T' h
+  chgD : ∀ h a b, findD t h = some a → findD T' h = some b → a = b ∨ a.ver < b.ver
+  chgS : ∀ h a b, findS t h = some a → findS T' h = some b → a = b ∨ a.sv < b.sv
+  chgC : ∀ h a b, findC t h = some a → findC T' h = some b → a = b ∨ a.sv < b.sv
+
+theorem DMono.refl (t : Tables) : DMono t t :=
+  ⟨fun _ => optLe_refl _, fun _ => optLe_refl _, fun _ => optLe_refl _,
+   fun _ _ _ ha hb => .inl (Option.some.inj (ha.symm.trans hb)), fun _ _ _ ha hb => .inl (Option.some.inj (ha.symm.trans hb)),
+   fun _ _ _ ha hb => .inl (Option.some.inj (ha.symm.trans hb))⟩
+
+theorem commitD_mono {t : Tables} (hw : WF t) (hk : KOK t) {tx : DTx} (hi : DTxOK t tx) : DMono t (commitD t tx).1 := by
+  unfold commitD
+  split
+  · exact DMono.refl t
+  · split
+    · exact DMono.refl t
+    · rename_i hc
+      have hc' : consistentD t tx = true := by simpa using hc
+      have hs := dStatic hw hi hc'
+      have h0 := CInv.init hw hk hi hs (t.ver + 1)
+      obtain ⟨e1, h1⟩ := commitDItems_ok hw hi hs tx.descr { t := { t with ver := t.ver + 1 }, tx := tx } (fun _ h => h) hi.dKeys
+        h0
+      dsimp only
+      split
+      · rename_i c e heq
+        rw [heq] at e1; cases e1
+      · rename_i c heq
+        rw [heq] at h1
+        obtain ⟨_, _, _, R⟩ := commitStates_ok h1
+        simp only at h1
+        generalize (commitStates c).1.t = T' at R
+        have S := h1.seen
+        refine ⟨?_, ?_, ?_, ?_, ?_, ?_⟩
+        · intro h; rw [seenD_congr R.descrs R.dSaved]; exact S.monoD h
+        · intro h; rw [← S.seenSeq h]; exact R.seenS h
+        · intro h; rw [← S.seenCeq h]; exact R.seenC h
+        · intro h a b ha hb
+          obtain ⟨ea, hma⟩ := findD_some ha
+          obtain ⟨eb, hmb⟩ := findD_some hb
+          rw [R.descrs] at hmb
+          exact S.dChg b hmb a hma (ea.trans eb.symm)
+        · intro h a b ha hb
+          rcases R.srcS h b hb with hcb | hkey
+          · have := S.sSame h b hcb
+            rw [ha] at this; exact .inl (Option.some.inj this)
+          · obtain ⟨p, hp, rfl⟩ := List.mem_map.1 hkey
+            cases hf : findS c.t p.1 with
+            | none =>
+              have := h1.siOld0 p hp (by rw [(h1.si p hp).old, hf])
+              rw [ha] at this; cases this
+            | some a' =>
+              have := S.sSame _ a' hf
+              rw [ha] at this; cases this
+              obtain ⟨b', hb', r⟩ := R.chgS _ a hf
+              rw [hb] at hb'; cases hb'; exact r
+        · intro h a b ha hb
+          rcases R.srcC h b hb with hcb | hkey
+          · have := S.cSame h b hcb
+            rw [ha] at this; exact .inl (Option.some.inj this)
+          · obtain ⟨p, hp, rfl⟩ := List.mem_map.1 hkey
+            cases hf : findC c.t p.1 with
+            | none =>
+              have := h1.ciOld0 p hp (by rw [(h1.ci p hp).old, hf])
+              rw [ha] at this; cases this
+            | some a' =>
+              have := S.cSame _ a' hf
+              rw [ha] at this; cases this
+              exact R.chgC _ a b hf hb
+
+theorem runD_mono {t : Tables} (hw : WF t) (hk : KOK t) (s : DScript) (hs : DScriptOK t s) : DMono t (runD t s).1 := by
+  unfold runD
+  split
+  · exact DMono.refl t
+  · rename_i tx htx
+    split
+    · exact DMono.refl t
+    · have := commitD_mono hw hk (dCalls_ok hw hk hs htx)
+      generalize commitD t tx = r at this
+      obtain ⟨t', res, e⟩ := r
+      cases e <;> exact this
 
 end Sdc.Mdib
